@@ -10,7 +10,7 @@ R12.3 the LALR pipeline hands exactly augment_grammar's result on (check_and_tra
 """
 from .. import cfg
 from ..callgraph import CallGraph
-from ..dataflow import operand_term, raw_operand_place, raw_place, single_def, forward_derived
+from ..dataflow import operand_term, raw_operand_place, raw_place, single_def, forward_derived, term_str
 from ..facts import AnchorMissing
 from .common import (PA, where, short, transitive_control_deps, control_dependence_no_errors, only_via_edge,
                      all_places, ok_blocks)
@@ -148,6 +148,16 @@ def check(ctx):
                   "*name* of the start symbol (Symbol::N field 0; a whole-Symbol comparison misses clipped / typed / "
                   "member-named occurrences): the start symbol of the LR grammar may then occur on a right-hand side",
                   where(body, line))
+        # the scan covers *all* productions: the iterator the test runs on is the grammar's production list itself
+        # (Cfg.pr through iter()/deref only), not a pre-selected subset (added after seed C04-a)
+        if found is not None:
+            src = operand_term(body, found.args[0], through_calls=True) if found.args else ("unknown",)
+            whole = src[0] == "path" and bool(src[2]) and src[2][-1] == "pr" and 1 <= src[1] <= body.nargs
+            ctx.check(whole, "R12.1", "augment_grammar|scan-covers-all-productions",
+                      "the right-hand-side test iterates the grammar's whole production list (cfg.pr)",
+                      "the right-hand-side test runs on %s, not on the grammar's whole production list cfg.pr: an occurrence of "
+                      "the start symbol in a production that is not visited leaves the grammar unaugmented"
+                      % (short(src[1].path) + "(..)" if src[0] == "call" else term_str(body, src)), where(body, found.line))
         ctx.check(count_test, "R12.1", "augment_grammar|unchanged-return-counts-start-productions",
                   "the unchanged return also depends on a comparison of the number of start productions",
                   "the unchanged return no longer depends on the number of start productions "
